@@ -242,4 +242,63 @@ theorem neg_start_before (start t : Int) (n : Nat) (ht : t < 0) :
   simp only []
   split <;> (try split) <;> (try split) <;> omega
 
+/-! ### `SliceRange::steps` -/
+
+theorem clamp_start_neg (x t : Int) (n : Nat) (ht : t < 0) :
+    offsetFromStart (clampI x (-(n : Int) - 1) ((n : Int) - 1)) n = pyAdjust x t n := by
+  unfold offsetFromStart clampI pyAdjust
+  simp only []
+  split <;> split <;> (try split) <;> (try split) <;> (try split) <;> omega
+
+/-- **T3 (`SliceRange::steps`)**: the element count is CPython's, for every start/stop/step≠0/n. -/
+theorem steps_eq_pyCount (r : SliceRange) (n : Nat) (h0 : r.step ≠ 0) :
+    r.steps n = pyCount r.start r.stop r.step n := by
+  obtain ⟨start, stop, step⟩ := r
+  simp only at h0
+  by_cases ht : step > 0
+  · have hneg : ¬ step < 0 := by omega
+    have hS := pyAdjust_range_pos start step n ht
+    cases stop with
+    | none =>
+      simp only [SliceRange.steps, SliceRange.clamp, ht, hneg, if_true, if_false, Option.map_none,
+        Option.getD_none, clamp_start_pos _ _ _ ht, pyCount, pyBounds, true_and, false_and, or_false, false_or]
+      by_cases hc : pyAdjust start step n < (n : Int)
+      · simp only [hc, ↓reduceIte]
+        rw [if_neg (by omega), Int.tdiv_eq_ediv_of_nonneg (by omega)]
+        omega
+      · simp only [hc, ↓reduceIte]
+        rw [if_pos (by omega)]
+    | some e =>
+      have hE := pyAdjust_range_pos e step n ht
+      simp only [SliceRange.steps, SliceRange.clamp, ht, hneg, if_true, if_false, Option.map_some,
+        Option.getD_some, clamp_start_pos _ _ _ ht, pyCount, pyBounds, true_and, false_and, or_false, false_or]
+      by_cases hc : pyAdjust start step n < pyAdjust e step n
+      · simp only [hc, ↓reduceIte]
+        rw [if_neg (by omega), Int.tdiv_eq_ediv_of_nonneg (by omega)]
+        omega
+      · simp only [hc, ↓reduceIte]
+        rw [if_pos (by omega)]
+  · have hn : step < 0 := by omega
+    have hS := pyAdjust_range_neg start step n hn
+    cases stop with
+    | none =>
+      simp only [SliceRange.steps, SliceRange.clamp, ht, hn, if_true, if_false, Option.map_none,
+        Option.getD_none, clamp_start_neg _ _ _ hn, pyCount, pyBounds, true_and, false_and, or_false, false_or]
+      by_cases hc : (-1 : Int) < pyAdjust start step n
+      · simp only [hc, ↓reduceIte]
+        rw [if_neg (by omega), Int.tdiv_eq_ediv_of_nonneg (by omega)]
+        omega
+      · simp only [hc, ↓reduceIte]
+        rw [if_pos (by omega)]
+    | some e =>
+      have hE := pyAdjust_range_neg e step n hn
+      simp only [SliceRange.steps, SliceRange.clamp, ht, hn, if_true, if_false, Option.map_some,
+        Option.getD_some, clamp_start_neg _ _ _ hn, pyCount, pyBounds, true_and, false_and, or_false, false_or]
+      by_cases hc : pyAdjust e step n < pyAdjust start step n
+      · simp only [hc, ↓reduceIte]
+        rw [if_neg (by omega), Int.tdiv_eq_ediv_of_nonneg (by omega)]
+        omega
+      · simp only [hc, ↓reduceIte]
+        rw [if_pos (by omega)]
+
 end RtenVerif.Layout
